@@ -11,17 +11,17 @@ CHECKS = {
         text="Seeded search over preamble contents, record cuts, padding, noise placement, buffer sizes and read schedules; every run is compared field by field with an independent one-shot reference model and re-run under two more schedules. Evidence over the sampled runs, not a proof; directed biases (cuts inside length prefixes, pairs over 3+ records, exact-fill reads, tight buffers) aim the sample at the stated risks.",
         note="Trusted: the harness's own wire codec and M-preamble (written from the specification); std::String::from_utf8_lossy as the lossy-decoding reference. Assumes buffer >= longest pair + 13.",
         technique=TECH + ": caller-schedule simulator over request::Parser, seeded chunking/segmentation search vs. reference model"),
-    "C02": dict(engine="D1", cat="exploration", ref="DESIGN.md 4/C02",
-        text="Seeded search over stream contents, segmentation, noise and caller schedules (parse into caller buffers of any size or the internal buffer, consume, compress, drain output, select) behind a real request-parser hand-off; every delivered byte is checked against M-stream at its offset after every step, end-of-stream exactly at the terminator.",
+    "C02": dict(engine="D1+D2", cat="exploration", ref="DESIGN.md 4/C02",
+        text="Seeded search over stream contents, segmentation, noise and caller schedules (parse into caller buffers of any size or the internal buffer, consume, compress, drain output, select) behind a real request-parser hand-off; every delivered byte is checked against M-stream at its offset after every step, end-of-stream exactly at the terminator. The same extraction is also observed through the async Request (scenario async_delivery: the C09 connection scenario with caller buffers of 0..70000 bytes, buffered and vectored reads, Pending and short reads, reply flushes that return Pending).",
         note="Trusted: wire codec and M-stream. Caller respects documented preconditions.",
         technique=TECH + ": caller-schedule simulator over stream::Parser vs. reference model"),
     "C04": dict(engine="D1", cat="exploration", ref="DESIGN.md 4/C04",
         text="Seeded traffic dense in reply-eliciting records at every position class, bodies split at every offset by 1-byte schedules; the concatenated parser output is a prefix of the model's reply list at every step and equal at quiescence (exactly-once, order, type, id, status, body in one comparison); reported output counts equal buffer growth.",
         note="Trusted: wire codec (independent GetValuesResult/EndRequest/Unknown encoders) and the models' reply rules.",
         technique=TECH + ": caller-schedule simulator, reply stream vs. reference model"),
-    "C05": dict(engine="D1", cat="exploration", ref="DESIGN.md 4/C05",
-        text="k sequential requests on one wire through the real conversion chain with seeded look-ahead at each hand-off and seeded reader stop points; leftovers equal the unread suffix of the fed bytes at record boundaries, environments/streams equal per-request models.",
-        note="Trusted: models; feeding discipline documented in DESIGN (bytes of request i+1 reach stream parser i only while it is held at the final terminator).",
+    "C05": dict(engine="D1+D2", cat="exploration", ref="DESIGN.md 4/C05",
+        text="k sequential requests on one wire through the real conversion chain with seeded look-ahead at each hand-off and seeded reader stop points; leftovers equal the unread suffix of the fed bytes at record boundaries, environments/streams equal per-request models. Scenario async_pipelined carries the chain through Token::run: a client sends k requests back to back without waiting for EndRequest, handlers end at the end-of-file of their final input stream, and all k requests must be served with the environments, stream contents and outputs of k separate connections under every transport read/write pattern.",
+        note="Trusted: models; feeding discipline documented in DESIGN (bytes of request i+1 reach stream parser i only while it is held at the final terminator; in async_pipelined handlers never read while no stream is selected, since a parser without an active stream ignores everything it is given).",
         technique=TECH + ": caller-schedule simulator over the parser conversion chain"),
     "C06": dict(engine="D1", cat="exploration", ref="DESIGN.md 4/C06",
         text="Configuration sweep (buffer sizes 0..64 dense, residues near 4K/8K/64K/1M, random) with preambles whose critical pair sits exactly at the documented bound, under all chunk styles incl. exact-fill reads; effective size formula checked; after every parse() with done == false the input buffer must be non-empty.",
@@ -40,12 +40,12 @@ CHECKS = {
         note="Trusted: http crate's canonical_reason as the reason-phrase reference; the expected grammar is built by the harness from the documented format.",
         technique=TECH + ": fault-injecting io::Write sink, capacity exhaustion enumerated at every byte"),
     "C07": dict(engine="D2", cat="exploration", ref="DESIGN.md 4/C07",
-        text="Seeded search over connection histories: the real Token::run task on a deterministic executor over a simulated transport (reads of 1..n bytes or Pending, writes accepting 1..n bytes or Pending at every call, spurious polls), a compliant open-loop client with 1..4 requests and noise records, and a chooser-driven handler family. The decoded transport log and handler log are compared with M-conn: one invocation per request with the model's environment and input prefix, handler output, Stdout{} Stderr{} and exactly one EndRequest with the mapped status, replies exactly once in order and after their query, reuse iff keep-conn, task termination.",
+        text="Seeded search over connection histories: the real Token::run task on a deterministic executor over a simulated transport (reads of 1..n bytes or Pending, writes accepting 1..n bytes or Pending at every call, spurious polls), a compliant open-loop client with 1..4 requests and noise records, and a chooser-driven handler family. The decoded transport log and handler log are compared with M-conn: one invocation per request with the model's environment and input prefix, handler output, Stdout{} Stderr{} and exactly one EndRequest with the mapped status, replies exactly once in order and after their query, reuse iff keep-conn, task termination. One run in 16 is a long-lived connection of 5..12 requests; half of the runs give every poll a Waker of its own (wake-ups through older ones are lost); scenario reuse_after_abort re-uses the C11 connection scenario (an abort is not an I/O error: the next request must be served).",
         note="Trusted: M-conn, wire codec. Does not constrain the order of management replies relative to EndRequest beyond causality.",
         technique=TECH + ": deterministic executor + simulated transport + peer model, history checked against reference model"),
     "C08": dict(engine="D2", cat="exploration", ref="DESIGN.md 4/C08",
-        text="The same connection machinery in strict wake-only mode with the closed-loop peer of the quantifier; invariant evaluated at every suspension on the transport read (all replies for complete records already read are in the transport log) and wait-for-cycle detection at quiescence, with queries placed before, between and during requests and mid-stream. Found and now guards the two repaired defects F1/F2.",
-        note="Trusted: executor strictness (a task is polled only after its waker fired), M-conn reply list. Valid under the closed-loop peer only (whole records, later ones withheld).",
+        text="The same connection machinery in strict wake-only mode with the closed-loop peer of the quantifier; invariant evaluated at every suspension on the transport read (all replies for complete records already read are in the transport log) and wait-for-cycle detection at quiescence, with queries placed before, between and during requests and mid-stream. Found and now guards the two repaired defects F1/F2. Scenario closed_loop_duplex runs the same peer against handlers with concurrent writer and reader sub-tasks (a writer holds the output lock across Pending writes while the reader owes a reply); scenario query_then_more_in_one_burst lets further records follow a query in the same burst and evaluates the invariant whenever the task suspends having read a whole number of records.",
+        note="Trusted: executor strictness (a task is polled only after its waker fired), M-conn reply list. The closed-loop scenarios are valid under the closed-loop peer only (whole records, later ones withheld); the burst scenario evaluates the invariant at record boundaries only, because close() legitimately defers a reply while it waits for the rest of a record it is skipping.",
         technique=TECH + ": strict deterministic executor + closed-loop peer, suspension-point invariant and deadlock detection"),
     "C09": dict(engine="D2", cat="exploration", ref="DESIGN.md 4/C09",
         text="Seeded search over handler call sequences on the async read interfaces (poll_read with buffers of 0..70000 bytes, poll_fill_buf+consume(k), set_stream, writeable()), transport read patterns and write-side readiness, with management records arriving mid-stream; bytes received per stream compared with M-stream (prefix; equality and sticky end-of-file once end-of-file was seen), is_writeable() sampled after every poll against the model's gating condition, output_stream()/set_stream() rejections probed under catch_unwind.",
@@ -60,7 +60,7 @@ CHECKS = {
         note="Trusted: M-stream/M-conn abort rules. Empty Stdout/Stderr records after an abort are treated as optional.",
         technique=TECH + ": caller-schedule simulator + deterministic executor, abort placed at seeded record positions"),
     "C12": dict(engine="D2", cat="fault_enumeration", ref="DESIGN.md 4/C12",
-        text="Per seeded scripted connection the fault points are enumerated: EOF at every input byte offset, a read error at every read call, a one-shot write error and a one-shot zero-length write at every write call, each in a fresh run replaying the script's choice list. Checked: termination without panic or spinning, no handler for an incompletely received preamble, end-of-file seen by a handler only behind a delivered terminator (short reads surface as errors), no write after a failed write, no transport read after a reported read error (error kinds ConnectionReset / Interrupted / TimedOut / Other drawn per script), log = well-formed prefix consistent with the handler log.",
+        text="Per seeded scripted connection the fault points are enumerated: EOF at every input byte offset, a read error at every read call, a one-shot write error and a one-shot zero-length write at every write call, each in a fresh run replaying the script's choice list. Checked: termination without panic or spinning, no handler for an incompletely received preamble, end-of-file seen by a handler only behind a delivered terminator (short reads surface as errors), no write after a failed write, no transport read after a reported read error (error kinds ConnectionReset / Interrupted / TimedOut / Other drawn per script), log = well-formed prefix consistent with the handler log. Scenario hostile_traffic: the script under the C03 mutation operators (or random bytes), ungated, then end-of-file: termination without panic or spinning, output = server records only.",
         note="Trusted: executor step cap as the spin detector (a poll that never returns would hang the check instead). Handlers propagate I/O errors.",
         technique=TECH + ": fault-point enumeration over a replayed seeded script (EOF / read error / write error / zero write at every index)"),
     "C14": dict(engine="D2+D3+D5", cat="exploration", ref="DESIGN.md 4/C14",
